@@ -203,6 +203,18 @@ def oracle(case):
             for meth in ("linear", "lower", "higher"):
                 if not np.array_equal(getattr(f, "threshold_at_" + m)(r, method=meth), getattr(s, "threshold_at_" + m)(r, method=meth)):
                     return f"threshold_at_{m}({meth}) differs from the underlying Scores {info}"
+        # every remaining public query of Scores runs on a FraudScores object as it does on the equivalent Scores object
+        try:
+            fs, ss = f.swap(), s.swap()
+        except Exception as e:        # noqa: BLE001
+            return f"swap() raised {type(e).__name__}: {e} on the FraudScores object (the equivalent Scores object must behave the same) {info}"
+        if not (np.array_equal(fs.pos, ss.pos) and np.array_equal(fs.neg, ss.neg) and fs.score_class == ss.score_class and fs.equal_class == ss.equal_class
+                and np.array_equal(np.asarray(fs.cm(t).matrix), np.asarray(ss.cm(t).matrix))):
+            return f"swap() differs from the underlying Scores {info}"
+        if len(gen) + len(fra) >= 2 and len(set(list(gen) + list(fra))) >= 2:
+            a_, b_ = f.threshold_at_metric(0.5, "fnr"), s.threshold_at_metric(0.5, "fnr")
+            if len(a_) != len(b_) or any(not np.array_equal(x_, y_) for x_, y_ in zip(a_, b_)):
+                return f"threshold_at_metric differs from the underlying Scores {info}"
         if len(gen) and len(fra):
             if f.eer() != s.eer() or f.auc() != s.auc() or f.auc(0.1, 0.7, x_axis="fnr", y_axis="tnr") != s.auc(0.1, 0.7, x_axis="fnr", y_axis="tnr"):
                 return f"eer / auc differ from the underlying Scores {info}"
@@ -237,7 +249,8 @@ def eval_items(items):
 def bounded(chk):
     from vf.framework import run_bounded
     vals_ok = [[], [0.0], [1.0], [0.2, 0.7], [0.1, 0.1, 0.9, 1.0], [0.0, 0.5, 0.5, 1.0]]
-    vals_bad = [[-0.1], [1.5], [0.2, 1.5], [1.5, 0.2], [-1e-9, 0.3], [0.3, float(np.nextafter(1.0, 2.0))], [0.5, 0.6, -3.0]]
+    vals_bad = [[-0.1], [1.5], [0.2, 1.5], [1.5, 0.2], [-1e-9, 0.3], [0.3, float(np.nextafter(1.0, 2.0))], [0.5, 0.6, -3.0],
+                [-5e-324], [0.4, -1e-300], [-1e-17, 0.9]]          # the smallest negative magnitudes (absorbed by x - 0.5)
     items = []
     for g in vals_ok + vals_bad:
         for f_ in vals_ok + vals_bad:
@@ -246,7 +259,7 @@ def bounded(chk):
             for scl in ("genuine", "fraud"):
                 for eg, ef in ((0, 0), (2, 3)):
                     items.append({"gen": g, "fra": f_, "score_class": scl, "eg": eg, "ef": ef})
-    chk.bounded["bound"] = "genuine / fraud arrays from 6 in-range and 7 out-of-range templates (empty, boundary values 0 and 1, one ulp above 1, out-of-range value first / last / only), both score classes, easy counts (0,0),(2,3); every query compared with a plain Scores object"
+    chk.bounded["bound"] = "genuine / fraud arrays from 6 in-range and 10 out-of-range templates (empty, boundary values 0 and 1, one ulp above 1, negative subnormal / tiny values, out-of-range value first / last / only), both score classes, easy counts (0,0),(2,3); every query (incl. swap, threshold_at_metric, eer, auc) compared with a plain Scores object"
     chk.bounded["rule"] = "enumerated templates"
     chk.bounded["exhaustive"] = True
     run_bounded(chk, items, eval_items)
